@@ -46,6 +46,7 @@ func run(r *vkit.Report) {
 	r.Assume("producers close their channel only after their last send returned; the harness closes out / dsts itself after Merge / Replicate returned (they are documented not to)")
 	r.Assume("stream.Merge inputs honour the context they are given (ProbeStream.HonourCtx); the consumer never calls Next concurrently with Close and always calls Close")
 	r.Assume("after stream.Merge first reports an error no further Next is issued: stickiness of the error is not judged")
+	r.Assume("the caller's slice of inputs / destinations belongs to the caller: the functions may read it while they run but must leave the array (the passed window, its spare capacity, its surroundings) as it was")
 	r.Assume("which of several input errors is 'first' is not judged: any error that some input's Next had already returned is accepted")
 	r.Assume("a Next given a done context by the consumer may return a value, End, an input's error or that context's error: all are accepted, and after the context's error the consumer carries on; what is judged is that nothing is lost or duplicated and the stream still ends as its inputs do")
 	r.Assume("in plans where the consumer uses contexts of its own, failing inputs return only error values that are not identical to context.Canceled / context.DeadlineExceeded, so the consumer can tell the two apart")
@@ -75,6 +76,12 @@ func run(r *vkit.Report) {
 	for _, p := range []string{"reflect(0)", "range(1)", "merge2", "merge3", "reflect(4)", "reflect(7)"} {
 		r.Floor("chans.Merge runs on code path "+p, r.Table("chans.Merge path", p), int64(nMerge/20))
 	}
+	for _, p := range []string{"reflect(0)", "range(1)", "merge2", "merge3", "reflect(4)", "reflect(7)"} {
+		r.Floor("second chans.Merge over the same, now closed, inputs on code path "+p, r.Table("chans.Merge called again over the same closed inputs", p), int64(nMerge/20))
+	}
+	r.Floor("argument integrity checks of chans.Merge", r.Table("argument integrity checks", "chans.Merge"), int64(nMerge/2))
+	r.Floor("argument integrity checks of chans.Replicate", r.Table("argument integrity checks", "chans.Replicate"), int64(nRep/2))
+	r.Floor("argument integrity checks of stream.Merge", r.Table("argument integrity checks", "stream.Merge"), int64((nErr+nClose+nRand)/2))
 	r.Floor("chans.Merge runs with an input closed before Merge was called", r.Table("chans.Merge input mode", "preclosed-empty")+r.Table("chans.Merge input mode", "prefilled-closed"), int64(nMerge/20))
 	r.Floor("chans.Merge runs with unbuffered out", r.Table("chans.Merge out", "unbuffered"), int64(nMerge/5))
 	r.Floor("chans.Merge runs with buffered out", r.Table("chans.Merge out", "buffered"), int64(nMerge/5))
@@ -152,6 +159,61 @@ func (s *gset) startedHere(g vkit.G) bool {
 
 // relevant: a goroutine of the case or one started by them.
 func (s *gset) relevant(g vkit.G) bool { return s.has(g.ID) || s.startedHere(g) }
+
+// ---------------------------------------------------------------------------------------------
+// Argument integrity: the variadic arguments are handed over as arr[a:b:c], a window with spare
+// capacity into a larger array whose other cells hold sentinels; an independent copy of the whole
+// array is kept. After the call the caller's array must be what it was.
+
+type guardedArgs[T comparable] struct {
+	arr, orig []T
+	a, b      int
+}
+
+// guardArgs returns the guard and the slice to pass (len(elems) elements, 2 spare cells of
+// capacity that hold sentinels, 2 sentinels before and 3 after).
+func guardArgs[T comparable](elems []T, sentinel func() T) (*guardedArgs[T], []T) {
+	const pre, post, spare = 2, 3, 2
+	arr := make([]T, 0, pre+len(elems)+post)
+	for i := 0; i < pre; i++ {
+		arr = append(arr, sentinel())
+	}
+	arr = append(arr, elems...)
+	for i := 0; i < post; i++ {
+		arr = append(arr, sentinel())
+	}
+	g := &guardedArgs[T]{arr: arr, orig: append([]T(nil), arr...), a: pre, b: pre + len(elems)}
+	return g, arr[g.a : g.b : g.b+spare]
+}
+
+// verify returns "" if the caller's array is untouched, else what changed.
+func (g *guardedArgs[T]) verify() string {
+	var zero T
+	for i := range g.arr {
+		if g.arr[i] == g.orig[i] {
+			continue
+		}
+		now := "another element of the array"
+		if g.arr[i] == zero {
+			now = "nil"
+		} else {
+			for j := range g.orig {
+				if g.orig[j] == g.arr[i] {
+					now = fmt.Sprintf("what was at argument index %d", j-g.a)
+				}
+			}
+		}
+		switch {
+		case i < g.a:
+			return fmt.Sprintf("the cell %d before the passed window now holds %s", g.a-i, now)
+		case i >= g.b:
+			return fmt.Sprintf("the cell %d past the end of the passed window (spare capacity / beyond) now holds %s", i-g.b, now)
+		default:
+			return fmt.Sprintf("argument %d of %d now holds %s", i-g.a, g.b-g.a, now)
+		}
+	}
+	return ""
+}
 
 // ---------------------------------------------------------------------------------------------
 // Values
